@@ -133,6 +133,12 @@ CORPUS = [
     # an executor created BEFORE the instance is set up and run AFTER: the setup node does not run again
     _chain_case(2, [[0, 1]], [_ex(target=[1], defer=True), dict(kind="setup", target=None, exclude=None, root=None)], setup=[0]),
     _chain_case(3, [[0, 2], [1, 2]], [_ex(defer=True), dict(kind="call", args=[], run_debug=False), _ex(target=[2], defer=True), dict(kind="setup", target=[1], exclude=None, root=None)], setup=[0, 1], is_async=True),
+    # a restart from a cache file runs a setup node the file does not hold: it is set up for the instance
+    _chain_case(3, [[0, 2], [1, 2]], [_ex(target=[1], cache_in=True), _ex(from_cache=0), dict(kind="call", args=[], run_debug=False), _ex()], setup=[0]),
+    _chain_case(3, [[0, 2], [1, 2]], [_ex(target=[1], cache_in=True), _ex(from_cache=0), dict(kind="call", args=[], run_debug=False)], setup=[0], is_async=True),
+    # a partial setup followed by a full one: the full one runs what is left
+    _chain_case(3, [[0, 2], [1, 2]], [dict(kind="setup", target=[0], exclude=None, root=None), dict(kind="setup", target=None, exclude=None, root=None), dict(kind="call", args=[], run_debug=False)], setup=[0, 1]),
+    _chain_case(3, [[0, 2], [1, 2]], [dict(kind="setup", target=[1], exclude=None, root=None), dict(kind="setup", target=None, exclude=None, root=None)], setup=[0, 1], is_async=True),
     # one path rewritten between two restarts
     _chain_case(3, [[0, 1], [1, 2]], [_ex(target=[1], cache_in=True), _ex(from_cache=0), _ex(cache_in=True), _ex(from_cache=2)]),
 ]
@@ -583,6 +589,8 @@ def run(pid, tier, seed, res, only=None):
                 if sorted(o["executed"]) != mnames:
                     msg = "operation %d (%s %s) executed %s, expected %s (instance had set up %s)" % (oi, kind, {k2: v2 for k2, v2 in o["op"].items() if k2 in ("target", "root", "cache_deps_of", "from_cache")}, sorted(o["executed"]), mnames, o["done_before"])
                     props_ = {"C03"}
+                    if set(mnames) - set(o["executed"]):
+                        props_.add("C09")  # returned normally while a selected node has not run
                     diffn = set(o["executed"]) ^ set(mnames)
                     if any(x in ids.idx and base["case"]["setup"] and x.startswith("n") and x[1:].isdigit() and int(x[1:]) in base["case"]["setup"] for x in diffn):
                         props_.add("C11")
